@@ -10,21 +10,23 @@ COMMON_ASSUMPTIONS = [
 PLAN = {}
 NOT_APPLICABLE = {}
 # guarded (-DVATA_VERIF) instrumentation commits in /repo
-HOOK_COMMITS = ["eae8efbd"]
+HOOK_COMMITS = ["eae8efbd", "9d95f65e", "aba84741"]
 
 PLAN["C01"] = {
     "level": "exploration",
-    "rule": "every ordered pair (A,B) of the finite domain TA(n,Sigma,<=k rules per side, any final set) is built through the public API and "
+    "rule": "every ordered pair (A,B) of the finite domain TA(n,Sigma,<=k rules per side, any final set) and, to reach 3-4 states and unary/binary/ternary symbols together, every pair of "
+            "TRIMMED automata (every pair is language-equivalent to a trimmed pair because all variants trim their operands first) is built through the public API and "
             "checked with all 8 implemented InclParam selections (no-sim variants on raw operands under 2 state numberings, sim variants with the "
             "cli/unit-test recipe: SanitizeAutsForInclusion + UnionDisjointStates + ComputeSimulation) against the reference subset-construction inclusion; "
+            "for every included pair the final antichain of the upward algorithm (exported by a guarded hook) is additionally checked to be sound and complete w.r.t. the reference reachable pairs, and in every step of its main loop every post-image computed must be subsumed by an entry the step keeps; "
             "a pair is non-trivial when both languages are non-empty and A != B (pairs are distinct by construction of the index bijection)",
     "assumptions": COMMON_ASSUMPTIONS,
     "claim": "Every ordered pair of tree automata of the stated finite domains is decided by all 8 implemented inclusion variants on the real library "
              "and compared with an exact reference; exhaustive within the bounds, nothing beyond them. Small-scope exhaustiveness is the right level because "
              "the known failure modes (leaf symbols on one side, rule-less / useless states, binary rules with differently reached children) all occur with <=3 states and <=4 rules.",
     "technique": "bounded exhaustive enumeration of automata pairs x all InclParam configurations against a reference subset construction",
-    "quick": [("rel", "c01.unimpl"), ("rel", "c01.n2s3k2"), ("rel", "c01.n2s2k3")],
-    "thorough": [("rel", "c01.unimpl"), ("rel", "c01.n2s3k3"), ("rel", "c01.n3agk4"), ("rel", "c01.n2s2k4")],
+    "quick": [("rel", "c01.unimpl"), ("rel", "c01.n2s3k2"), ("rel", "c01.n2s2k3"), ("rel", "c01.trim.n2s3.a3b3"), ("rel", "c01.trim.n2s2.a3b5")],
+    "thorough": [("rel", "c01.unimpl"), ("rel", "c01.trim.n3s3.a3b3"), ("rel", "c01.trim.n2s2.a4b6"), ("rel", "c01.trim.n2s2.a5b7"), ("rel", "c01.n2s3k3"), ("rel", "c01.n3agk4"), ("rel", "c01.n2s2k4"), ("rel", "c01.trim.n3s3.a3b4"), ("rel", "c01.trim.n3afh.a3b3"), ("rel", "c01.trim.n4s3p.a3b4"), ("rel", "c01.trim.n3s3.a4b4")],
     "require": {"all": ["expect_included", "nonemptyA_not_included", "nonemptyA_included", "class_A_nullary_B_lacks", "class_A_state_without_rules",
                         "class_useless_states", "class_binary_both", "unimpl_calls"]},
 }
@@ -265,14 +267,35 @@ PLAN["C13"] = {
     "rule": "(a) every AutDescription with <=3 rules over 3 state names (q, q0, 1) x 3 symbols with ranks 0..2 x every final set x named/anonymous: ParseString(Serialize(d)) == d, plus two textual "
             "variants of the same description (nullary rules written with '()', runs of blanks/tabs, blank lines, sections reordered, no blanks at all); (b) every automaton of TA(2..3,Sigma,<=3) "
             "in expl / bdd-bu / bdd-td and every NFA of FA(2..3,{a,b},<=4) (also with two start symbols on a start state) in expl_fa: load with a state dictionary, dump, load the dump with a "
-            "fresh dictionary, dump: first dump == loaded description, second dump == first; (c) arbitrary text: ALL token strings up to length 5 (6 in thorough) over a 17-token alphabet (keywords, "
-            "names, ':', numbers, parentheses, comma, arrow, blank, newline, byte 0xff) and every single and double token edit (delete / duplicate / replace by each token) of three valid templates, "
+            "fresh dictionary, dump: first dump == loaded description, second dump == first; (c) arbitrary text: ALL token strings up to length 5 over a 21-token alphabet (keywords, "
+            "names, ':', numbers, parentheses, comma, arrow, all six std::isspace characters, byte 0xff) and every single and double token edit (delete / duplicate / replace by each token) of three valid templates, "
             "each fed to TimbukParser::ParseString and LoadFromString of all four automaton classes, also under ASan+UBSan with a 5 s per-case limit: outcome must be success or std::exception; "
             "crash, sanitizer report, foreign exception or timeout is a violation. Non-trivial = at least one rule / every text case",
     "assumptions": COMMON_ASSUMPTIONS + ["'all byte strings' is decided only for the bounded token language above (deviation from well-formed text is bounded, not the length of the well-formed part)"],
     "claim": "Every description / automaton / token string / token edit of the stated finite domains.",
     "technique": "bounded exhaustive enumeration of descriptions, automata and token strings (all strings to a length, all 1- and 2-edit deviations from valid templates), sanitizer as crash oracle",
     "quick": [("rel", "c13.desc.k3"), ("rel", "c13.enc.tree.n2s2k3"), ("rel", "c13.enc.tree.n3s3pk3"), ("rel", "c13.enc.fa.n3l2k4"), ("rel", "c13.text.len5"), ("rel", "c13.edit2"), ("asan", "c13.text.len4"), ("asan", "c13.edit1")],
-    "thorough": [("rel", "c13.desc.k3"), ("rel", "c13.enc.tree.n2s2k3"), ("rel", "c13.enc.tree.n3s3pk3"), ("rel", "c13.enc.fa.n3l2k4"), ("rel", "c13.text.len6"), ("asan", "c13.text.len5"), ("asan", "c13.edit2")],
+    "thorough": [("rel", "c13.desc.k3"), ("rel", "c13.enc.tree.n2s2k3"), ("rel", "c13.enc.tree.n3s3pk3"), ("rel", "c13.enc.fa.n3l2k4"), ("rel", "c13.text.len5"), ("rel", "c13.edit2"), ("asan", "c13.text.len5"), ("asan", "c13.edit2")],
     "require": {"all": ["class_empty_final_set", "class_empty_transition_section", "class_nullary_rule", "class_start_state_with_two_start_symbols", "dump_load_cycles"]},
+}
+
+PLAN["C19"] = {
+    "level": "exploration",
+    "rule": "small scope, complete: every automaton of TA(3,{a:0,f:1,g:2},<=3) under ALL 6 state bijections x 2 embeddings (dense, 7q+3) x ALL 6 symbol-id permutations x ALL rule insertion "
+            "orders (<=6): emptiness verdict, |states|/|rules| of Reduce / RemoveUselessStates / RemoveUnreachableStates, downward and (trimmed) upward simulation mapped back through the "
+            "renaming must equal those of the base variant; every pair of TA(2,{a:0,b:0,g:2}) with <=3 rules in total under all bijections of both operands x embeddings x symbol permutations x "
+            "insertion orders x 8 inclusion variants vs the reference verdict. Corpus, complete over finite sets: every file of automata/small_timbuk (all 95^2 ordered pairs), "
+            "tests/aut_timbuk_smaller (20 automata of 159-1402 rules; thorough: all 400 ordered pairs against the shipped answer table), automata/moderate_artmc_timbuk (27 automata): all 8 "
+            "variants agree, A<=A, A<=AuB, AnB<=A (Intersection and IntersectionBU, which must be equivalent), A<=B implies AuB<=B and A<=AnB, transitivity on every triple whose premises "
+            "hold, A equivalent to Reduce / RemoveUselessStates / RemoveUnreachableStates / reload(dump) / 4 listed renamings / reversed rule order, result sizes equal under the listed "
+            "renamings. Calls over the per-case limit (20 s) are reported as capped, never as coverage or violation",
+    "assumptions": COMMON_ASSUMPTIONS + ["for automata with hundreds of states the n! bijections cannot be enumerated: 'any bijection' is decided up to n=3 and checked on a FIXED LISTED family (reversal, cyclic "
+                                        "shifts, 7q+3, reversed rule order) on the corpus; no randomness", "corpus checks are metamorphic (the library's own inclusion is the judge); small-scope checks use the reference model"],
+    "claim": "Complete over all renamings/orders for the small domains; complete over the finite shipped corpus for the listed laws and the listed renaming family.",
+    "technique": "bounded exhaustive enumeration of automata x all state bijections x symbol permutations x insertion orders; exhaustive pair/triple enumeration over the finite shipped corpus (metamorphic laws)",
+    "quick": [("rel", "c19.small.single.n3k3"), ("rel", "c19.small.pairs.n2t3"), ("rel", "c19.corpus.small.single"), ("rel", "c19.corpus.small.pairs"), ("rel", "c19.corpus.smaller.single"),
+              ("rel", "c19.corpus.smaller.triples"), ("rel", "c19.corpus.moderate.single")],
+    "thorough": [("rel", "c19.small.single.n3k3"), ("rel", "c19.small.pairs.n2k2"), ("rel", "c19.corpus.small.single"), ("rel", "c19.corpus.small.pairs"), ("rel", "c19.corpus.smaller.single"),
+                 ("rel", "c19.corpus.smaller.triples"), ("rel", "c19.corpus.moderate.single"), ("rel", "c19.corpus.smaller.pairs")],
+    "require": {"all": ["variants", "calls", "expect_not_included", "equivalence_checks", "variant_calls", "law_checks", "transitivity_triples_with_both_premises"]},
 }
